@@ -191,6 +191,8 @@ def x_own(report):
         _fn(CM, "__init__"), "self.rows = []\nself._md5_set = set()\nself._add_rows(rows)") and _same(
         _fn(CM, "_add_rows"),
         "md5set = self._md5_set\nfor row in rows:\n    self.rows.append(row)\n    md5set.add(row['md5'])")
+    facts["ownManifestAddBuildsNew"] = _same(
+        _fn(CM, "__add__"), "mf = CollectionManifest(self.rows)\nmf._add_rows(other.rows)\nreturn mf")
     facts["ownManifestSelectReturnsNew"] = _same(
         _fn(CM, "select_to_manifest"), "new_rows = self._select(**kwargs)\nreturn CollectionManifest(new_rows)")
     wtc = _fn(BM, "write_to_csv")
